@@ -279,3 +279,26 @@ mod tests {
         assert_eq!(result.len(), 1);
     }
 }
+
+/// Read-only verification hooks (feature `verif-hooks`).
+#[cfg(feature = "verif-hooks")]
+impl<R, E: Expiration, V: ExpiredVal<E>> SegExpTree<R, E, V>
+where
+    i64: From<R>,
+{
+    /// Every physically stored copy as `(place, place mask of the value, value)`.
+    pub fn verif_copies(&self) -> Vec<(usize, u64, V)> {
+        let mut copies = Vec::new();
+        for (place, chunk) in self.chunks.iter().enumerate() {
+            for entity in chunk.buffer.iter() {
+                copies.push((place, entity.mask, entity.val));
+            }
+        }
+        copies
+    }
+
+    /// Number of places backed by storage.
+    pub fn verif_place_count(&self) -> usize {
+        self.chunks.len()
+    }
+}
